@@ -1425,6 +1425,9 @@ fn arm_literals(path: &str) -> BTreeMap<String, BTreeSet<String>> {
 /// the source tree this binary was BUILT against (the `redis-sim` path dependency of harness/Cargo.toml),
 /// not a hard-coded /repo
 fn repo_dir() -> String {
+    // self-tests of the source translator only (harmless rewrites of the source TEXT against the unchanged binary):
+    // the override is recorded in the evidence (`shape.repo`)
+    if let Ok(d) = std::env::var("VERIF_C16_SRC_OVERRIDE") { if !d.is_empty() { return d; } }
     const MANIFEST: &str = include_str!("../Cargo.toml");
     for line in MANIFEST.lines() {
         if line.trim_start().starts_with("redis-sim") {
@@ -1812,14 +1815,29 @@ fn shape_check(cx: &mut Ctx) {
     cx.out.op("DF".to_string(), model_default.clone());
     let dir = repo_dir();
     let read = |rel: &str| std::fs::read_to_string(format!("{}/{}", dir, rel)).unwrap_or_default();
-    let sim = shape::extract(&read("src/redis/parser.rs"), "from_resp", shape::Style::Resp);
-    let zc = shape::extract(&read("src/redis/commands.rs"), "from_resp_zero_copy", shape::Style::Resp);
-    let lua = shape::extract(&read("src/redis/executor/script_ops.rs"), "parse_lua_command_bytes", shape::Style::Lua);
+    let types = shape::field_types(&read("src/redis/command.rs"));
+    let sim = shape::extract(&read("src/redis/parser.rs"), "from_resp", shape::Style::Resp, &types);
+    let zc = shape::extract(&read("src/redis/commands.rs"), "from_resp_zero_copy", shape::Style::Resp, &types);
+    let lua = shape::extract(&read("src/redis/executor/script_ops.rs"), "parse_lua_command_bytes", shape::Style::Lua, &types);
     if sim.rows.len() < 100 || zc.rows.len() < 100 || lua.rows.len() < 30 || sim.families.len() < 5 {
         cx.out.violation("C16:source:shape-scan-failed", "the match arms of the three grammars could not be translated into shape descriptors (layout changed?): the shape table is no longer compared with the source",
             json!({"repo": dir, "from_resp_rows": sim.rows.len(), "zero_copy_rows": zc.rows.len(), "translator_rows": lua.rows.len(), "families": sim.families.len(), "problems": [sim.problems, zc.problems, lua.problems]}));
         return;
     }
+    // the three tables REGENERATED from the source as a Lean file: `./check` elaborates it after the run (the
+    // regenerated tables against each other, against the hand-written model, and the theorems of Props/C16Src.lean
+    // instantiated on them)
+    let names = |tag: &str| -> Vec<String> { model[tag].iter().map(|r| r.get("name").cloned().unwrap_or_default()).collect() };
+    let (lean_text, unprinted) = shape::lean_file(&dir, &sim, &zc, &lua, &names("R"), &names("L"), &names("F"));
+    if let Err(e) = std::fs::write(cx.out.dir.join("GrammarSrcGen.lean"), &lean_text) {
+        cx.out.violation("C16:source:regenerated-table-not-written", "the Lean file with the regenerated grammar tables could not be written", json!({"error": e.to_string()}));
+    }
+    for u in &unprinted {
+        if !u.contains('?') {
+            cx.out.violation(&format!("C16:source:shape-not-printable:{}", u), "a field of a translated shape row has a form the Lean printer of the regenerated tables does not know", json!({"row_field": u}));
+        }
+    }
+    cx.out.extra.insert("regenerated_tables".into(), json!({"file": "GrammarSrcGen.lean", "bytes": lean_text.len(), "rows_not_printed": unprinted}));
     const FIELDS: &[&str] = &["arity", "aerr", "ctor", "slots", "opt", "tail", "opts", "unk", "flits", "checks"];
     let by_name = |rows: &[shape::Row]| -> BTreeMap<String, shape::Row> { rows.iter().map(|r| (r.get("name").cloned().unwrap_or_default(), r.clone())).collect() };
     let mut unrecognised: BTreeSet<String> = BTreeSet::new();
